@@ -88,6 +88,10 @@ def check(run, prefix="O14", compose=True):
     P = prefix
     ob_request_identifier(run, P + ".12")
     ob_repair_store_unconditional(run, P + ".13")
+    # the responder answers from the blockstore's per-block maps: everything beyond the proven last slice is pruned when the last slice becomes
+    # known (the range guard of get_shred / get_slice_root / create_double_merkle_proof)
+    from . import C13 as _C13
+    _C13.ob_last_slice_prune(run, P + ".14")
     from . import detectors as _DL
     _DL.ob_loop_exits(run, P + ".11", ['repair::', 'consensus::blockstore'], 'every missing slice / shred has to be requested: a loop that stops early never repairs the rest')
     ob_block_lookup(run, P + ".10")
@@ -371,6 +375,9 @@ def ob_block_lookup(run, oid):
                 continue
         if K.mentions_field(ret, "disseminated") and not K.mentions_field(ret, "repaired"):
             ok = any(a[0] == "eq" and a[2] is True and any(K.mentions_field(x, "completed") for x in a[1]) and any(K.mentions_arg(b, x, 2) for x in a[1]) for a in atoms)
+            # `completed.as_ref().is_some_and(|(h, _)| h == hash)`: the equality lives in a closure that captured the requested hash
+            ok = ok or any(a[0] == "bool" and a[2] is True and K.mentions_field(a[1][0], "completed") and K.mentions_call(a[1][0], "is_some_and")
+                           and D.closure_compares_capture(prog, a[1][0], lambda t: K.mentions_arg(b, t, 2)) for a in atoms)
             n_dis += 1
             if not ok:
                 bad.append("disseminated returned without hash equality")
@@ -379,7 +386,7 @@ def ob_block_lookup(run, oid):
         else:
             bad.append("row answers %s under %s" % (mir.show(ret)[:60], G.atoms_show(atoms)[-2:]))
     o.check(not bad and n_dis >= 1, "get_block_data|disseminated-only-on-equal-hash", "the disseminated block is returned only when its completed hash == requested hash", b.span, {"bad": bad[:3]})
-    o.check(not bad and n_rep >= 2, "get_block_data|otherwise-repaired", "every other case (not completed, or another hash) consults repaired[hash]", b.span, {"rows": len(rows), "repaired_rows": n_rep})
+    o.check(not bad and n_rep >= 1, "get_block_data|otherwise-repaired", "every other case (not completed, or another hash) consults repaired[hash]", b.span, {"rows": len(rows), "repaired_rows": n_rep})
     callers = sorted(set(K.root_fn(c.body.defpath).rsplit("::", 1)[-1] for c in prog.callers_of(b.defpath)))
     o.check({"get_block", "get_shred", "get_slice_root", "get_last_slice_index", "create_double_merkle_proof"} <= set(callers), "get_block_data|used-by-all-getters",
             "all block getters go through this lookup", b.span, {"callers": callers})
